@@ -1,2 +1,22 @@
-From PK Require Import Base.Prim Base.PrimProofs.
-Theorem c02_placeholder : True. Proof. exact I. Qed.
+(* C02 - everything emitted is spec-conformant TTLV (primitive layer).
+   Property theorems only; proofs live in PK.Base.SpecProofs. *)
+From PK Require Import Base.Bytes Base.Prim Base.WfSpec Base.SpecProofs.
+Open Scope Z_scope.
+
+(* primitive encodings are byte-identical to the independent specification model *)
+Theorem c02_enc_prim_spec : forall tag p bs,
+  enc_prim tag p = Some bs -> spec_enc_rel tag (to_spec p) bs.
+Proof. exact enc_prim_spec. Qed.
+Print Assumptions c02_enc_prim_spec.
+
+(* and they are well-formed TTLV items in the sense of the specification grammar *)
+Theorem c02_enc_prim_wf : forall mem tag p bs,
+  tag_ok tag = true -> wf_prim mem p = true -> enc_prim tag p = Some bs -> wf_item bs.
+Proof. exact enc_prim_wf. Qed.
+Print Assumptions c02_enc_prim_wf.
+
+(* non-vacuity: a negative Integer and a 3-character TextString are encodable *)
+Example c02_nonvacuous :
+  exists a b, enc_prim 4325377 (VInt (-2)) = Some a /\ enc_prim 4325377 (VText [97; 98; 99]) = Some b
+              /\ wf_prim (fun _ => true) (VInt (-2)) = true.
+Proof. eexists; eexists; repeat split; vm_compute; reflexivity. Qed.
